@@ -1,2 +1,86 @@
-(* Properties_C15.v -- placeholder, theorems follow *)
-From TP Require Import Term.
+(* Properties_C15.v — C15: equality, ordering and hashing of the value types
+   agree with each other. *)
+From TP Require Import Base Elem Parser Order P_Order Tie_Glyph.
+Local Open Scope N_scope.
+
+(* the laws the property asks for, for a type with operators (eqb, cmp):
+   == is an equivalence; < is irreflexive and transitive; "neither less"
+   coincides with ==; > is the converse of < *)
+Definition agrees {T} (eqb : T -> T -> bool) (cmp : T -> T -> comparison) : Prop :=
+  (forall a, eqb a a = true) /\
+  (forall a b, eqb a b = true -> eqb b a = true) /\
+  (forall a b c, eqb a b = true -> eqb b c = true -> eqb a c = true) /\
+  (forall a, cmp a a <> Lt) /\
+  (forall a b c, cmp a b = Lt -> cmp b c = Lt -> cmp a c = Lt) /\
+  (forall a b, (cmp a b <> Lt /\ cmp b a <> Lt) <-> eqb a b = true) /\
+  (forall a b, cmp a b = Gt <-> cmp b a = Lt).
+
+Theorem C15_orders :
+  agrees cs_eqb cs_cmp /\ agrees glyph_eqb glyph_cmp /\ agrees colour_eqb colour_cmp /\
+  agrees attr_eqb attr_cmp /\ agrees element_eqb element_cmp /\ agrees string_eqb string_cmp /\
+  agrees point_eqb point_cmp /\ agrees point_eqb extent_cmp /\ agrees rect_eqb rect_cmp /\
+  agrees cseq_eqb cseq_cmp /\ agrees vkey_eqb vkey_cmp /\ agrees mouse_eqb mouse_cmp.
+Proof.
+  split; [exact (ord_laws _ _ ord_cs)|]. split; [exact (ord_laws _ _ ord_glyph)|].
+  split; [exact (ord_laws _ _ ord_colour)|]. split; [exact (ord_laws _ _ ord_attr)|].
+  split; [exact (ord_laws _ _ ord_element)|]. split; [exact (ord_laws _ _ ord_string)|].
+  split; [exact (ord_laws _ _ ord_point)|]. split; [exact (ord_laws _ _ ord_extent)|].
+  split; [exact (ord_laws _ _ ord_rect)|]. split; [exact (ord_laws _ _ ord_cseq)|].
+  split; [exact (ord_laws _ _ ord_vkey)|exact (ord_laws _ _ ord_mouse)].
+Qed.
+Print Assumptions C15_orders.
+
+(* operator< of glyph (hand written) is the "less" of its operator<=> *)
+Theorem C15_glyph_lt : forall a b, glyph_ltb a b = true <-> glyph_cmp a b = Lt.
+Proof.
+  intros a b. unfold glyph_cmp. destruct (glyph_ltb a b); [tauto|].
+  destruct (glyph_ltb b a); split; congruence.
+Qed.
+
+(* equal values have equal hashes: the C++ hash of each type is a function of
+   the key only (hash_combine over exactly these members) *)
+Theorem C15_hash :
+  (forall a b, glyph_eqb a b = true -> glyph_hash_key a = glyph_hash_key b) /\
+  (forall a b, colour_eqb a b = true -> colour_key a = colour_key b) /\
+  (forall a b, attr_eqb a b = true -> attr_hash_key a = attr_hash_key b) /\
+  (forall a b, element_eqb a b = true -> element_hash_key a = element_hash_key b) /\
+  (forall a b, string_eqb a b = true -> string_hash_key a = string_hash_key b) /\
+  (forall a b, cs_eqb a b = true -> cs_index a = cs_index b).
+Proof.
+  split; [exact glyph_hash_eq|]. split; [exact colour_hash_eq|]. split; [exact attr_hash_eq|].
+  split; [exact element_hash_eq|]. split; [exact string_hash_eq|].
+  intros a b H. apply N.eqb_eq. exact H.
+Qed.
+Print Assumptions C15_hash.
+
+(* two glyphs that print the same byte in the same (non-UTF-8) character set are
+   equal, neither is less, and they hash alike - whatever the two unused
+   storage bytes hold, i.e. however they were constructed *)
+Theorem C15_glyph_storage :
+  forall c b x1 x2 y1 y2, cs_eqb c CsUtf8 = false ->
+    let g := mkGlyph c b x1 x2 in
+    let h := mkGlyph c b y1 y2 in
+    glyph_eqb g h = true /\ glyph_cmp g h = Eq /\ glyph_ltb g h = false /\ glyph_ltb h g = false /\
+    glyph_hash_key g = glyph_hash_key h.
+Proof.
+  intros c b x1 x2 y1 y2 Hc g h.
+  assert (E : glyph_eqb g h = true).
+  { unfold glyph_eqb, g, h. cbn [gcs g0]. rewrite Hc.
+    assert (cs_eqb c c = true) as -> by (destruct c; reflexivity). apply N.eqb_refl. }
+  split; [exact E|]. split; [apply (ok_eq _ _ ord_glyph); exact E|].
+  assert (Hl : forall p q, glyph_eqb p q = true -> glyph_ltb p q = false).
+  { intros p q Hpq. apply (ok_eq _ _ ord_glyph) in Hpq. unfold glyph_cmp in Hpq.
+    destruct (glyph_ltb p q); [discriminate|reflexivity]. }
+  split; [apply Hl; exact E|]. split; [|apply glyph_hash_eq; exact E].
+  apply Hl. destruct (ord_laws _ _ ord_glyph) as (_ & Hs & _). apply Hs. exact E.
+Qed.
+Print Assumptions C15_glyph_storage.
+
+(* and the real operators on a grid of storage patterns agree with the model
+   (Generated.v, regenerated from the header on every run) *)
+Theorem C15_real_glyph_operators :
+  let gs := map glyph_of_pat Generated.g_glyph_grid in
+  forallb (fun mi => result_ok (fst mi) (snd mi))
+    (combine (flat_map (fun a => map (fun b => glyph_result a b) gs) gs) Generated.g_glyph_results) = true.
+Proof. exact (proj1 tie_glyph_grid). Qed.
+Print Assumptions C15_real_glyph_operators.
